@@ -710,6 +710,19 @@ class Interp:
                         ix_ = (bv.len - int(ps[-1]["off"])) if ps[-1].get("from_end") else Aff.const(int(ps[-1]["off"]))
                         return self.fresh_int(st, "elem", it, info=("elem", bv.base, bv.off + ix_))
                     return TopV(ety)
+        # byte k of x.to_be_bytes() / x.to_le_bytes() taken apart by an array pattern (`let [hi, lo] = id.to_be_bytes()`)
+        if ps and ps[-1]["k"] == "constindex" and not ps[-1].get("from_end"):
+            bplace, bty = self.resolve(ctx, st, {"l": mp["l"], "p": ps[:-1]})
+            if isinstance(bplace, Place):
+                bv = self.read(st, bplace)
+                bo = bv.get("bytes_of") if isinstance(bv, OpaqueV) else None
+                if bo and bo[0] in ("to_be_bytes", "to_le_bytes") and isinstance(bo[1], IntV) and bo[1].ty and not bo[1].ty[1] and bo[1].ty[0] % 8 == 0:
+                    w = bo[1].ty[0]
+                    nb, k = w // 8, int(ps[-1]["off"])
+                    if k < nb:
+                        sb = self.bits_of(st, bo[1], w)
+                        bi = (nb - 1 - k) if bo[0] == "to_be_bytes" else k
+                        return self.from_bits(st, tuple(sb[bi * 8 + i] for i in range(8)), (8, False), "byte")
         place, ty = self.resolve(ctx, st, mp)
         if isinstance(place, Place):
             v = self.read(st, place)
@@ -1068,6 +1081,11 @@ class Interp:
                     c, sh, bl, bh = 1, b.aff + k, bl + k, bh + k
                 r = self.pure_int(st, ("shl", c, sh, it), "shl", it, c << bl, min(c << bh, hi))
                 r.origin = ("shl", c, sh)
+                if c == 1 and bl == 0:
+                    # 1 << n as linear facts (what the operator-impl model gets by splitting n == 0 / n >= 1):
+                    # 2^n >= n + 1, and 2^n <= 1 + n * 2^(w-1), i.e. n == 0 gives exactly 1
+                    st.add_fact(r.aff - sh - 1)
+                    st.add_fact(Aff.const(1) + sh.scale(1 << (w - 1)) - r.aff)
                 return r
             if base == "Shr" and al >= 0:
                 return self.fresh_int(st, "shr", it, 0, ah if ah < INF else None)
